@@ -1450,6 +1450,10 @@ class Builder:
         """`x(...)` where the statements being built know x to be `self.m` (returned by a spliced helper): the callee is that method"""
         if isinstance(call.func, ast.Name) and (self.f.qual, call.func.id) in self.assume:
             kind, v = self.assume[(self.f.qual, call.func.id)]
+            if kind == "value" and isinstance(v, ast.Call) and isinstance(v.func, ast.Name) and v.func.id == "getattr" and len(v.args) == 2 and not v.keywords \
+                    and isinstance(v.args[1], ast.Constant) and isinstance(v.args[1].value, str) and v.args[1].value.isidentifier() and isinstance(v.args[0], ast.Name):
+                # `getattr(self, "m")` with a literal name is `self.m`
+                v = ast.copy_location(ast.Attribute(value=v.args[0], attr=v.args[1].value, ctx=ast.Load()), v)
             if kind == "value" and isinstance(v, ast.Attribute) and self.sc.selfname is not None:
                 syn = ast.Call(func=ast.Attribute(value=ast.Name(id=self.sc.selfname, ctx=ast.Load()), attr=v.attr, ctx=ast.Load()), args=call.args, keywords=call.keywords)
                 ast.copy_location(syn, call)
